@@ -153,7 +153,9 @@ check("C12", "exploration",
       "the scheduler draws the running task at every yield point and the accept order. Oracle: in the "
       "device log tagged with the connection whose line the executing task last read, the APDUs of one "
       "request are contiguous; each client receives the reply derived from its own request; all clients "
-      "are answered. Sampling of schedules, not enumeration.",
+      "are answered. The cyclic garbage collector is a seeded seam too (off during a run, invoked at drawn "
+      "device exchanges; APDUs sent by a finalizer belong to nobody's request). Sampling of schedules, not "
+      "enumeration.",
       "Pre-emption at seam granularity (socket operations, device exchanges, sleeps, thread start/join); a "
       "forking server is reported as unsupported (exit 2).",
       SIM + "seeded schedule search over real server code, per-request contiguity and own-reply oracles",
